@@ -13,7 +13,7 @@ One specification per property, three uses of TLC each:
 import json, os, re, concurrent.futures as cf
 from vlib import Infra, log, read_ndjson, write_ndjson
 
-PATH_SHAPES = list(range(1, 25))     # 15-24: key leaf not the first child, lists with two and three keys
+PATH_SHAPES = list(range(1, 29))     # 15-24: key leaf not the first child, lists with two and three keys; 25-28: every type x leaf / leaf-list / key leaf
 ALL_DATA_SHAPES = list(range(1, 62))
 
 
